@@ -237,6 +237,14 @@ def run_cases(prop, cases, attribute=None, progress=True):
     os.makedirs(REPLAYS, exist_ok=True)
     need = {}
     for c in cases:
+        if c.flavour == "tsan":
+            # pika's context switch carries no TSan fiber annotations.  TSan keeps one shadow call stack per OS thread; a task
+            # that suspends on one worker and resumes on another leaves its frames on the first worker's shadow stack for
+            # ever.  pika's own TSan mode switches task stealing off in the local* schedulers for this reason, but the
+            # shared-priority scheduler still migrates tasks, so its workers' shadow stacks overflow after enough
+            # migrations and libtsan itself dies (DEADLYSIGNAL inside __tsan::CurrentStackId).  That is a tool limit, not a
+            # property violation: TSan legs therefore never use shared-priority (it stays covered on the plain flavour).
+            c.args = ["--scheduler=local-priority-fifo" if a == "--scheduler=shared-priority" else ("--policy=1" if a == "--policy=7" else a) for a in c.args]
         if not os.path.isabs(c.exe):
             need.setdefault(c.flavour, set()).add(c.exe)
     hdirs = {}
